@@ -333,7 +333,7 @@ func (g *G) GuardedByGen(target Loc, holds func(cond ast.Expr, truth bool) bool,
 		for k, sc := range s.b.Succs {
 			h := held
 			if cond != nil && !h {
-				if Implied(ExpandBoolLocals(g.Info, g.Body, cond), k == 0, holds) {
+				if ImpliedX(g.Info, g.Body, cond, k == 0, holds) {
 					h = true
 				}
 			}
@@ -343,10 +343,11 @@ func (g *G) GuardedByGen(target Loc, holds func(cond ast.Expr, truth bool) bool,
 	return true
 }
 
-// Implied reports whether some atomic fact implied by cond == truth satisfies
-// holds. go/cfg does not decompose short-circuit conditions, so `a && b`
-// taken true implies a and b; `a || b` taken false implies !a and !b; `!a`
-// flips the polarity.
+// Implied reports whether cond == truth implies the fact recognised by holds.
+// go/cfg does not decompose short-circuit conditions, so `a && b` taken true
+// implies a and b (either may establish the fact); `a || b` taken false
+// implies !a and !b; `a || b` taken true (`a && b` taken false) establishes
+// the fact only when each alternative does; `!a` flips the polarity.
 func Implied(cond ast.Expr, truth bool, holds func(atom ast.Expr, truth bool) bool) bool {
 	cond = ast.Unparen(cond)
 	if be, ok := cond.(*ast.BinaryExpr); ok && (be.Op == token.LAND || be.Op == token.LOR) {
@@ -365,7 +366,9 @@ func Implied(cond ast.Expr, truth bool, holds func(atom ast.Expr, truth bool) bo
 		case e.Op == token.LAND && truth, e.Op == token.LOR && !truth:
 			return Implied(e.X, truth, holds) || Implied(e.Y, truth, holds)
 		case e.Op == token.LAND || e.Op == token.LOR:
-			return false
+			// `a || b` taken true (`a && b` taken false): one of the alternatives holds,
+			// we do not know which - the fact is implied only if each alternative implies it
+			return Implied(e.X, truth, holds) && Implied(e.Y, truth, holds)
 		}
 	}
 	return holds(cond, truth)
@@ -477,6 +480,29 @@ func IntCompare(info *types.Info, cond ast.Expr, truth bool, isE func(ast.Expr) 
 // the inline condition. The operands of e are assumed not to change between
 // the definition and the test (single-definition locals next to their use).
 func ExpandBoolLocals(info *types.Info, scope ast.Node, cond ast.Expr) ast.Expr {
+	return expandLocals(info, scope, cond, false)
+}
+
+// ExpandLocals is ExpandBoolLocals plus: operands of a comparison that are
+// single-definition locals holding the result of a call or a selector are
+// replaced by that expression (`want := o.GetHash(); if stored != want`).
+func ExpandLocals(info *types.Info, scope ast.Node, cond ast.Expr) ast.Expr {
+	return expandLocals(info, scope, cond, true)
+}
+
+// ImpliedX offers the condition as written, then with bool locals expanded,
+// then with comparison operands expanded as well.
+func ImpliedX(info *types.Info, scope ast.Node, cond ast.Expr, truth bool, holds func(atom ast.Expr, truth bool) bool) bool {
+	if Implied(cond, truth, holds) {
+		return true
+	}
+	if info == nil || scope == nil {
+		return false
+	}
+	return Implied(ExpandBoolLocals(info, scope, cond), truth, holds) || Implied(ExpandLocals(info, scope, cond), truth, holds)
+}
+
+func expandLocals(info *types.Info, scope ast.Node, cond ast.Expr, operands bool) ast.Expr {
 	if info == nil || scope == nil || cond == nil {
 		return cond
 	}
@@ -543,6 +569,35 @@ func ExpandBoolLocals(info *types.Info, scope ast.Node, cond ast.Expr) ast.Expr 
 		case *ast.BinaryExpr:
 			if x.Op == token.LAND || x.Op == token.LOR {
 				return &ast.BinaryExpr{X: expand(x.X, depth), Op: x.Op, OpPos: x.OpPos, Y: expand(x.Y, depth)}
+			}
+			switch x.Op {
+			case token.EQL, token.NEQ, token.LSS, token.LEQ, token.GTR, token.GEQ:
+				if !operands {
+					return e
+				}
+				// operands of a comparison that are single-definition locals holding a call/selector result
+				side := func(e ast.Expr) ast.Expr {
+					id, ok := ast.Unparen(e).(*ast.Ident)
+					if !ok {
+						return e
+					}
+					obj := info.ObjectOf(id)
+					if obj == nil || count[obj] != 1 || defs[obj] == nil || !declared[obj] {
+						return e
+					}
+					switch ast.Unparen(defs[obj]).(type) {
+					case *ast.CallExpr, *ast.SelectorExpr:
+						return &ast.ParenExpr{X: defs[obj]}
+					}
+					return e
+				}
+				if info.Types[x.X].IsNil() || info.Types[x.Y].IsNil() {
+					return e // `v != nil` tests are recognised on the variable itself (error discipline, nil guards)
+				}
+				nx, ny := side(x.X), side(x.Y)
+				if nx != x.X || ny != x.Y {
+					return &ast.BinaryExpr{X: nx, Op: x.Op, OpPos: x.OpPos, Y: ny}
+				}
 			}
 		case *ast.Ident:
 			obj := info.ObjectOf(x)
